@@ -275,6 +275,40 @@ class Irreducible(Exception):
 
 POISON = ("sym", "<value-after-loop>")
 
+
+def min0(d):
+    """canonical min(d, 0): orientation fixed by the sign of the leading term
+    (min(d,0) == min(-d,0) + d)."""
+    if d.is_zero():
+        return ZERO
+    cv = d.const_value()
+    if cv is not None:
+        return Poly.const(min(cv, 0))
+    lead = d.key[0][1]
+    if lead < 0:
+        return Poly.atom(("op", "min0", (-d,))) + d
+    return Poly.atom(("op", "min0", (d,)))
+
+
+def _min_form(c, x, y):
+    """`(a < b) ? x : y` with x - y == +-(a - b) is a clipped value (MIN/MAX
+    idioms and their hand-written equivalents): y + min(a-b, 0) resp. y - min(a-b, 0)."""
+    if not isinstance(c, Poly) or len(c.t) != 1:
+        return None
+    (m, k), = c.t.items()
+    if k != 1 or len(m) != 1 or m[0][1] != 1:
+        return None
+    a = m[0][0]
+    if a[0] != "op" or a[1] not in ("<", "<=", ">", ">="):
+        return None
+    u, v = a[2]
+    d = (u - v) if a[1] in ("<", "<=") else (v - u)     # x is chosen when d < 0
+    if (x - y) == d:
+        return y + min0(d)
+    if (x - y) == -d:
+        return y - min0(d)
+    return None
+
 # ----------------------------------------------------------------------------
 # symbolic execution of one C function
 # ----------------------------------------------------------------------------
@@ -647,6 +681,9 @@ class Exec:
                 return a if cv != 0 else b
             if isinstance(a, Ptr) or isinstance(b, Ptr):
                 self.fail(n, "conditional pointer")
+            m0 = _min_form(c, a, b)
+            if m0 is not None:
+                return m0
             return Poly.atom(("op", "?:", (c, a, b)))
         if k == "ArraySubscriptExpr":
             loc = self.lvalue(n)
@@ -923,6 +960,22 @@ class Exec:
 # ----------------------------------------------------------------------------
 # div/mod normalisation:  X with idiv(X,N) [and mod(X,N)]  ->  X = Q*N + R
 # ----------------------------------------------------------------------------
+def _exact_div(p, nn):
+    """p / nn when nn is a single term dividing every term of p, else idiv(p, nn)"""
+    if len(nn.t) == 1:
+        (sm, sc), = nn.t.items()
+        out = {}
+        for m, c in p.t.items():
+            r = _mono_div(m, c, sm, sc)
+            if r is None:
+                out = None
+                break
+            out[r[0]] = out.get(r[0], 0) + r[1]
+        if out is not None:
+            return Poly(out)
+    return Poly.atom(("op", "idiv", (p, nn)))
+
+
 def split_divmod(stores):
     """exact identity of C integer arithmetic: X == (X/N)*N + X%N, applied to
     every loop variable X that occurs as X/N or X%N (flattened double loops)."""
@@ -965,7 +1018,7 @@ def split_divmod(stores):
         for lp in s.ctx:
             if lp.atom in newloops:
                 q, r, nn = newloops[lp.atom]
-                ctx.append(Loop(q[1], q[2], ZERO, Poly.atom(("op", "idiv", (lp.hi, nn))), lp.line, lp.virtual))
+                ctx.append(Loop(q[1], q[2], ZERO, _exact_div(sub(lp.hi), nn), lp.line, lp.virtual))
                 ctx.append(Loop(r[1], r[2], ZERO, nn, lp.line, lp.virtual))
             else:
                 ctx.append(Loop(lp.uid, lp.name, sub(lp.lo), sub(lp.hi), lp.line, lp.virtual))
@@ -1408,6 +1461,8 @@ class MatchResult:
         self.comparable = True
         self.why = ""
         self.assumed = []     # bound variable identified with a table lookup
+        self.sub_b = {}       # substitution applied to the second set (flattened loop variable)
+        self.flat = []        # (variable, polynomial) identifications found by the affine rescue
 
 
 def match_triples(TF, TB, max_tries=20000):
@@ -1490,6 +1545,24 @@ def match_triples(TF, TB, max_tries=20000):
                 res.mapping = mp
                 res.assumed = [(a, b) for a, b in mp.items() if b[0] != "loop"]
                 return res
+    # affine rescue: one side walks a block with a single flat variable where the other
+    # uses nested loops (k  <->  m*n + q).  The flat variable is solved from one array's
+    # index and the identification is then checked on everything else.
+    resc = _affine_rescue(TF, TB, fa, ba, fineF, fineB, cb)
+    if resc is not None:
+        if resc["ok"]:
+            res.ok = True
+            res.mapping = resc["mp"]
+            res.sub_b = resc["sub_b"]
+            res.flat = resc["flat"]
+            return res
+        if best[1] is None or resc["score"] >= best[0]:
+            res.mapping = resc["mp"]
+            res.sub_b = resc["sub_b"]
+            res.flat = resc["flat"]
+            res.unmatched_f = resc["uf"]
+            res.unmatched_b = resc["ub"]
+            return res
     if best[1] is None:
         # fall back: identity by loop-variable name
         byname = {}
@@ -1527,6 +1600,122 @@ def match_triples(TF, TB, max_tries=20000):
         else:
             res.unmatched_b.append(t)
     return res
+
+
+def _lin_coef(p, v):
+    """p = c*v + rest with v absent from c and rest, c a non-zero rational -> (c, rest); else None"""
+    c = Fraction(0)
+    rest = {}
+    for m, k in p.t.items():
+        d = dict(m)
+        if v in d:
+            if d[v] != 1 or len(d) != 1:
+                return None
+            c += k
+        else:
+            if any(v in atom_atoms(a) for a, _ in m):
+                return None
+            rest[m] = k
+    if c == 0:
+        return None
+    return c, Poly(rest)
+
+
+def _affine_rescue(TF, TB, fa, ba, fineF, fineB, cb):
+    from collections import Counter
+    mp = {}
+    used = set()
+    for a in fa:
+        cs = [b for b in ba if fineF[a] == fineB[b]]
+        if len(cs) == 1 and cs[0] not in used:
+            mp[a] = cs[0]
+            used.add(cs[0])
+    UF = [a for a in fa if a not in mp]
+    UB = [b for b in ba if b not in used]
+    if not UB and UF:
+        # the flat variable may have been paired with the innermost nested variable (same stride 1)
+        best = None
+        for a0, b0 in list(mp.items()):
+            mp2 = {a: b for a, b in mp.items() if a != a0}
+            r = _affine_rescue_with(TF, TB, mp2, UF + [a0], [b0])
+            if r is not None and (best is None or r["ok"] or r["score"] > best["score"]):
+                best = r
+                if r["ok"]:
+                    break
+        return best
+    if not UF and UB:
+        best = None
+        for a0, b0 in list(mp.items()):
+            mp2 = {a: b for a, b in mp.items() if a != a0}
+            r = _affine_rescue_with(TF, TB, mp2, [a0], UB + [b0])
+            if r is not None and (best is None or r["ok"] or r["score"] > best["score"]):
+                best = r
+                if r["ok"]:
+                    break
+        return best
+    return _affine_rescue_with(TF, TB, mp, UF, UB)
+
+
+def _affine_rescue_with(TF, TB, mp, UF, UB):
+    from collections import Counter
+    if not ((len(UB) == 1 and len(UF) >= 2) or (len(UF) == 1 and len(UB) >= 2)):
+        return None
+    sub_f = {a: Poly.atom(b) for a, b in mp.items()}
+    TFm = [t.subst(sub_f) for t in TF]
+    flat_in_b = len(UB) == 1
+    v = UB[0] if flat_in_b else UF[0]
+    others = set(UF) if flat_in_b else set(UB)
+    S, O = (TB, TFm) if flat_in_b else (TFm, TB)       # S holds the flat variable
+    cands = []
+    for ts in S:
+        for to in O:
+            if (ts.xr, ts.yr) != (to.xr, to.yr):
+                continue
+            for ps, po in ((ts.xi, to.xi), (ts.yi, to.yi)):
+                lc = _lin_coef(ps, v)
+                if lc is None:
+                    continue
+                c, rest = lc
+                cand = (po - rest).scale(Fraction(1) / c)
+                la = {a for a in cand.atoms() if a[0] == "loop"}
+                if not la or not la <= others or any(k.denominator != 1 for k in cand.t.values()):
+                    continue
+                if cand not in cands:
+                    cands.append(cand)
+    if not cands:
+        return None
+    best = None
+    for cand in cands:
+        sv = {v: cand}
+        S2 = [t.subst(sv) for t in S]
+        cs, co = Counter(t.key() for t in S2), Counter(t.key() for t in O)
+        sc = sum((cs & co).values())
+        ok = cs == co
+        if best is None or sc > best[0] or ok:
+            left = Counter(co)
+            us = []
+            for t in S2:
+                if left.get(t.key(), 0) > 0:
+                    left[t.key()] -= 1
+                else:
+                    us.append(t)
+            left = Counter(cs)
+            uo = []
+            for t in O:
+                if left.get(t.key(), 0) > 0:
+                    left[t.key()] -= 1
+                else:
+                    uo.append(t)
+            best = (sc, cand, ok, us, uo)
+        if ok:
+            break
+    sc, cand, ok, us, uo = best
+    out = {"ok": ok, "score": sc, "mp": dict(mp), "flat": [(v, cand)],
+           "sub_b": {v: cand} if flat_in_b else {}}
+    if not flat_in_b:
+        out["mp_poly"] = {v: cand}
+    out["uf"], out["ub"] = (uo, us) if flat_in_b else (us, uo)
+    return out
 
 
 def triples_of(R, transpose=False, leaf=None):
@@ -1584,6 +1773,9 @@ class PairResult:
         self.Rf = self.Rb = None
         self.mapping = {}
         self.n_gemm = 0
+        self.flat = []
+        self.n_bounds = 0
+        self.bound_diffs = []   # (lo|hi, fwd Loop, bwd Loop, fwd text, bwd text)
 
 
 def param_leafmap(pf, pb):
@@ -1654,6 +1846,7 @@ def compare_pair(tuf, fname, tub, bname, consts_f=None, consts_b=None, opaque=()
         m = match_triples(TB, TF)
         pr.diffs = [("bwd", t) for t in m.unmatched_f] + [("fwd", t) for t in m.unmatched_b]
     pr.assumed = [(show_atom(a), show_atom(b)) for a, b in m.assumed]
+    pr.flat = [(show_atom(a), show(b)) for a, b in m.flat]
     pr.mapping = m.mapping
     if not m.ok:
         if not m.comparable:
@@ -1665,13 +1858,46 @@ def compare_pair(tuf, fname, tub, bname, consts_f=None, consts_b=None, opaque=()
     sub = {a: Poly.atom(b) for a, b in m.mapping.items()}
     if nf >= nb:
         kf = {(r, i.subst(sub)) for r, i, _ in Rf.kills}
-        kb = {(rewrite(r, leaf), rewrite(i, leaf)) for r, i, _ in Rb.kills}
+        kb = {(rewrite(r, leaf), rewrite(i, leaf).subst(m.sub_b)) for r, i, _ in Rb.kills}
     else:
-        kf = {(r, i) for r, i, _ in Rf.kills}
+        kf = {(r, i.subst(m.sub_b)) for r, i, _ in Rf.kills}
         kb = {(rewrite(r, leaf), rewrite(i, leaf).subst(sub)) for r, i, _ in Rb.kills}
     if kf != kb:
         pr.status = "violation"
         pr.kill_diffs = [("fwd", show_loc(r, i)) for r, i in kf - kb] + [("bwd", show_loc(r, i)) for r, i in kb - kf]
+    # iteration spaces: corresponding loops whose bounds are computed from parameters only
+    # (no table lookup on either side) must have the same bounds
+    lf = {lp.atom: lp for e in Rf.edges for lp in e.loops}
+    lb = {lp.atom: lp for e in Rb.edges for lp in e.loops}
+    src, dst, src_is_f = (lf, lb, True) if nf >= nb else (lb, lf, False)
+
+    def has_table(p):
+        return any(a[0] == "ld" for a in p.atoms(True))
+
+    def norm_b(p):
+        return rewrite(p, leaf)
+    for a, b in m.mapping.items():
+        if b[0] != "loop" or a not in src or b not in dst:
+            continue
+        la, lb_ = src[a], dst[b]
+        for which in ("lo", "hi"):
+            pa, pb = getattr(la, which), getattr(lb_, which)
+            if src_is_f:
+                pa, pb = pa.subst(sub), norm_b(pb)
+            else:
+                pa, pb = norm_b(pa).subst(sub), pb
+            if any(x[0] == "loop" and x in src for x in pa.atoms(True)):
+                continue          # depends on a loop variable that has no image
+            ta, tb = has_table(pa), has_table(pb)
+            pr.n_bounds += 1
+            if pa == pb:
+                continue
+            if ta or tb:
+                pr.n_bounds -= 1
+                continue          # driven by index tables: equality is assumed, not decided
+            pr.status = "violation"
+            f_lp, b_lp = (la, lb_) if src_is_f else (lb_, la)
+            pr.bound_diffs.append((which, f_lp, b_lp, show(pa if src_is_f else pb), show(pb if src_is_f else pa)))
     return pr
 
 
@@ -1938,8 +2164,15 @@ class Tracer:
 
     def prim_name(self, call):
         nm = _callee_name(call)
+        clib = False
         if isinstance(call.func, ast.Name) and call.func.id in self.fnvar:
             nm = self.fnvar[call.func.id]
+            clib = True
+        elif isinstance(call.func, ast.Attribute) and isinstance(call.func.value, ast.Name) \
+                and call.func.value.id == "libcider":
+            clib = True
+        if clib and ("libcider:%s" % nm) in self.spec.prims:
+            return "libcider:%s" % nm
         return nm
 
     def is_prim(self, call):
@@ -2161,3 +2394,114 @@ def compare_traces(spec, EF, EB):
                 if not (o2.order < o1.order):
                     d.order.append((e1, e2, o1, o2))
     return d
+
+
+# ----------------------------------------------------------------------------
+# accumulate-only outputs and their initialisation (py-zeroinit)
+# ----------------------------------------------------------------------------
+def c_accumulated_params(R):
+    """C pointer parameters the function only adds to (`+=` / DGEMM BETA=1) without
+    initialising the element first: the caller must supply initialised storage."""
+    out = set()
+    byroot = {}
+    for s in R.stores:
+        if s.root[0] == "par" and s.root in R.data_roots:
+            byroot.setdefault(s.root, []).append(s)
+    for root, ss in byroot.items():
+        if root in R.leaf_reads:
+            continue           # in-place operator: reads its own input
+        kills = [s for s in ss if s.op == "="]
+        for a in ss:
+            if a.op != "+=":
+                continue
+            covered = False
+            for k in kills:
+                if k.seq > a.seq:
+                    continue
+                ids = {lp.uid for lp in a.ctx}
+                own = [lp for lp in k.ctx if lp.uid not in ids]
+                kid = {lp.uid for lp in k.ctx}
+                try:
+                    mp = unify(k.idx, own, a.idx, {lp.atom for lp in a.ctx if lp.uid not in kid})
+                except Irreducible:
+                    mp = {}
+                if mp is not None:
+                    covered = True
+                    break
+            if not covered:
+                out.add(root[1])
+                break
+    return out
+
+
+def c_written_params(R):
+    return {s.root[1] for s in R.stores if s.root[0] == "par" and s.root in R.data_roots}
+
+
+ZERO_ALLOC = {"zeros", "zeros_like"}
+
+
+def _is_zero_const(e):
+    return isinstance(e, ast.Constant) and isinstance(e.value, (int, float)) and not isinstance(e.value, bool) \
+        and e.value == 0
+
+
+def is_zeroing(st, names, fold=None):
+    """statement initialises the buffer(s) `names`: fresh zeros, `b[...] = 0`, `b.fill(0)`,
+    `b = None` (the primitive then allocates), or an `if` all of whose live branches do."""
+    if isinstance(st, ast.Assign) and len(st.targets) == 1:
+        t, v = st.targets[0], st.value
+        if isinstance(t, ast.Name) and t.id in names:
+            if isinstance(v, ast.Call) and _callee_name(v) in ZERO_ALLOC:
+                return True
+            if isinstance(v, ast.Constant) and v.value is None:
+                return True
+        if isinstance(t, ast.Subscript) and isinstance(t.value, ast.Name) and t.value.id in names and _is_zero_const(v):
+            return True
+    if isinstance(st, ast.Expr) and isinstance(st.value, ast.Call) and isinstance(st.value.func, ast.Attribute) \
+            and st.value.func.attr == "fill" and isinstance(st.value.func.value, ast.Name) \
+            and st.value.func.value.id in names and st.value.args and _is_zero_const(st.value.args[0]):
+        return True
+    if isinstance(st, ast.If):
+        v = fold(st.test) if fold else None
+        if v is True:
+            return any(is_zeroing(x, names, fold) for x in st.body)
+        if v is False:
+            return any(is_zeroing(x, names, fold) for x in st.orelse)
+        return bool(st.orelse) and any(is_zeroing(x, names, fold) for x in st.body) \
+            and any(is_zeroing(x, names, fold) for x in st.orelse)
+    return False
+
+
+def dominating_siblings(fn, stmt):
+    """statements that precede `stmt` in its own block or in an enclosing block of fn"""
+    cur = stmt
+    while cur is not fn and cur is not None:
+        par = getattr(cur, "_parent", None)
+        if par is None:
+            return
+        for fld in ("body", "orelse", "finalbody"):
+            blk = getattr(par, fld, None)
+            if isinstance(blk, list) and any(x is cur for x in blk):
+                pre = []
+                for x in blk:
+                    if x is cur:
+                        break
+                    pre.append(x)
+                for x in reversed(pre):       # nearest first
+                    yield x
+        cur = par
+
+
+def zeroed_before(fn, names, stmt, fold=None):
+    """the most recent dominating definition/initialisation of the buffer is a zeroing one"""
+    for x in dominating_siblings(fn, stmt):
+        if is_zeroing(x, names, fold):
+            return True
+        if isinstance(x, ast.Assign) and any(isinstance(t, ast.Name) and t.id in names for t in x.targets):
+            return False      # re-bound to something that is not known to be zero
+    return False
+
+
+def names_of_root(tracer, root):
+    return {root} | {n for n, (r, v) in tracer.alias.items() if r == root}
